@@ -118,11 +118,12 @@ fn request(peel: bool, tolerant: bool, shape: &str, objs: &HashMap<u64, Primitiv
     format!("c15.rt {} {} {} {} {} {}", peel as u8, tolerant as u8, shape, objs_text(objs), missing_text(missing), show_plain(p))
 }
 
-/// the reader configuration of the tree under test: does the `Option` reader look through `Try`/`Shared`?
-/// (C15's inputs contain no dangling reference, so the answer does not matter here; C18 decides it.)
+/// The model is always asked for the repaired readers (`Cfg.peel = true`: `PdfError::is_missing_object` looks
+/// through `Try` / `Shared`), which is what C18 demands of the implementation. On a tree without the repair the
+/// correspondence disagrees *and* the oracle has failing inputs (the verdict then carries the oracle's replay).
+/// `peel = false` exists in the model for the theorems about the pinned commit only.
 pub fn tree_peels() -> bool {
-    let j: serde_json::Value = serde_json::from_str(support::typed::SCHEMAS_JSON).unwrap();
-    !j["option_reader"]["peeled"].as_array().map(|a| a.is_empty()).unwrap_or(true)
+    true
 }
 
 struct Case {
@@ -573,7 +574,7 @@ fn oracle_handwritten(seed: u64, n: u64, only: Option<u64>) -> Oracle {
         let mut rng = Rng::derive(seed, "c15.law1.handwritten", case);
         let rp = |t: &str| json!({"oracle": "c15.law1.handwritten", "type": t, "seed": seed, "case": case});
         // Date: every field over its whole range (the writer refuses what it calls invalid)
-        let mut fld = |narrow: u64, wide: u64| if rng.chance(1, 5) { rng.below(wide) } else { rng.below(narrow) };
+        let mut fld = |narrow: u64, wide: u64| if rng.chance(1, 12) { rng.below(wide) } else { rng.below(narrow) };
         let date = Date {
             year: fld(10000, 65536) as u16,
             month: fld(13, 256) as u8,
